@@ -154,9 +154,9 @@ PROPS["C20"] = {
     "level": "exploration",
     "design_ref": "DESIGN.md §3 C20",
     "technique": "small-scope exhaustive execution of the real Links registry with reporters against a reference set of pairs; end-to-end runtime monitoring of reporter snapshots at exact quiescent points; concurrent counter stress under TSan/Miri",
-    "text": "Links registry (hook): every sequence to depth 5/6 and random sequences to depth 200 of register/insert/remove/remove_remote/remove_lane/remove_all_links/count_single/count_broadcast/targeted over 3 lanes x 4 remotes; after every operation each lane reader's link_count, the aggregate, linked_from/linked_to/is_linked and the running sum of event counts must equal the model. End to end (rawagent): the real runtime with NodeReporting and harness lanes; at each quiescent checkpoint (readers drained) every lane's and the aggregate's link_count must equal the number of remotes that can prove they hold a link (range for remotes whose reader was dropped), event counts are exact in emit-only phases, command counts cumulative; through link, unlink, remote disconnection, prune timeout, lane failure and stop. Concurrency: N counting threads against a snapshotting thread, sum of snapshots + final == sum of increments, under TSan (quick) and Miri (thorough).",
-    "note": "Trusted base: the reference set of (lane, remote) pairs, the harness lanes' own emission record, the paused clock as quiescence detector. A Synced response is counted as an event by the runtime and tolerated as such.",
-    "runs": [{"engine": "uplinks"}, {"engine": "rawagent"}],
+    "text": "Links registry (hook): every sequence to depth 5/6 and random sequences to depth 200 of register/insert/remove/remove_remote/remove_lane/remove_all_links/count_single/count_broadcast/targeted over 3 lanes x 4 remotes; after every operation each lane reader's link_count, the aggregate, linked_from/linked_to/is_linked and the running sum of event counts must equal the model. End to end (rawagent): the real runtime with NodeReporting and harness lanes; at each quiescent checkpoint (readers drained) every lane's and the aggregate's link_count must equal the number of remotes that can prove they hold a link (range for remotes whose reader was dropped), event counts are exact in emit-only phases, command counts cumulative; through link, unlink, remote disconnection, prune timeout, lane failure and stop. Concurrency: N counting threads against a snapshotting thread, sum of snapshots + final == sum of increments, under TSan (quick) and Miri (thorough). The reporting layer itself (swimos_introspection: registration task, URI forest, resolver, node / lane / mesh meta agents, UplinkSnapshot::make_pulse) is executed by engine introspect: the real register_introspection task and meta agents run beside 1-3 target agents on the real agent runtime with the resolver's NodeReporting, both against a harness AgentContext and hosted by the real runtime with remotes linked to the pulse lanes; node URIs include prefixes of one another. Under a paused clock every published pulse must carry the link count the simulated remotes prove for that instant; the event and command counts published by all consumers of a reader must add up, within per-instant bounds, to the event frames remotes received and the commands they sent; rates must be count per second of the lane's own interval; sync answers must replay the last snapshot; meta agents must start for every running, registered agent or lane and close within two intervals of its end. This found three defects of the reporting layer (URI forest, registration order, lane meta agent stopping at once), all repaired.",
+    "note": "Trusted base: the reference set of (lane, remote) pairs, the harness lanes' own emission record, the paused clock as quiescence detector. A Synced response is counted as an event by the runtime and tolerated as such. introspect: ground truth is what remotes with always-draining readers received; links of remotes that vanished are bounded, not exact; a targeted Synced may or may not count as an event; the initial snapshot of a pulse lane is only visible through a sync; mesh listing and lane_pulse_interval (the lane agent uses the node interval) are observed, not judged.",
+    "runs": [{"engine": "introspect"}, {"engine": "uplinks"}, {"engine": "rawagent"}],
     "sanitizers": [
         {"kind": "tsan", "engine": "uplinks", "args": ["--scale", "0.05", "--only", "counters-threads"], "quick": True, "timeout_s": 1800},
         {"kind": "miri", "tier": "quick", "engine": "uplinks", "args": ["--scale", "0.05", "--threads", "1", "--watchdog", "3000", "--only", "counters-threads"], "timeout_s": 3600},
